@@ -401,6 +401,10 @@ func c09Secret(t *T) []byte {
 		return []byte("secret")
 	case 2:
 		return rbytes(t, 1+t.R.Intn(4))
+	case 3: // lengths around the MD5 block boundaries of secret||salt and prevSum||secret||salt (8-byte salt, 16-byte prefix)
+		return rbytes(t, []int{39, 40, 41, 47, 48, 55, 56, 57, 63, 64, 65, 103, 104, 111, 112, 119, 120, 127, 128, 129}[t.R.Intn(20)])
+	case 4:
+		return rbytes(t, 41+t.R.Intn(160))
 	default:
 		return rbytes(t, t.R.Intn(41))
 	}
